@@ -30,7 +30,7 @@ if rc == 0:
 rc_with, o1 = sh("/venv/bin/python _out/demo.py", cwd=wt, timeout=900)
 # 2. suite with the change
 t0 = time.time()
-rc_t, o2 = sh("/venv/bin/python -m pytest -q -p no:cacheprovider --timeout=900 --continue-on-collection-errors --deselect tests/test_interfaces_communications.py 2>&1 | tail -3", cwd=wt, timeout=1800)
+rc_t, o2 = sh("/venv/bin/python -m pytest -q -p no:cacheprovider --timeout=900 --continue-on-collection-errors --deselect tests/test_interfaces_communications.py 2>&1 | tail -3", cwd=wt, timeout=4500)
 suite = o2.strip().splitlines()[-1] if o2.strip() else "?"
 # 3. demo passes without it
 sh("git -C %s stash -q -- basic_robotics" % wt)
